@@ -10,6 +10,7 @@ from __future__ import annotations
 
 import hashlib
 import io
+import warnings
 import itertools
 
 import common
@@ -17,8 +18,14 @@ import common
 from props import fbd
 
 ID = "C15"
-LEAN_MODULES = ["QProps.C15", "QProps.C15m", *fbd.LEAN_MODULES_C15]
+LEAN_MODULES = ["QProps.C15", "QProps.C15m", *fbd.LEAN_MODULES_C15, "QProps.C15r"]
 THEOREMS = [
+    "RDict.runStart_keeps",
+    "RDict.split_invisible",
+    "RDict.boundary_save",
+    "RDict.boundary_revert",
+    "RDict.boundary_request",
+    "RDict.pinned_split_visible",
     *fbd.THEOREMS_C15,
     "RunLoop.split_run_on",
     "RunLoop.split_many_on",
@@ -615,5 +622,93 @@ class NoLoggerSplit(common.Suite):
         return f"{case['driver']}:{case['entry']}:{'zero@0' if leading_zero(case) else 'other'}"
 
 
+class LazyPropertySplit(common.Suite):
+    """a calculator that computes a property only when somebody asks for it (stress, like most first-principles codes),
+    a logger that asks for it every few steps, a trajectory written every step: the files of `run(a); run(b)` are those of
+    `run(a + b)` — what an observer requested between two runs must not change what a later rejected trial restores. Oracle
+    only (the run-loop model has no calculator; the results-dictionary machine RDict carries the theorem `runStart_keeps`)."""
+
+    name = "lazy-property-split"
+
+    def cases(self, rng, tier):
+        n = 40 if tier == "quick" else 400
+        for _ in range(n):
+            logint = rng.choice([2, 3, 3, 4])
+            # most cuts right after a step the logger wrote (that is when the observer has just asked for the property)
+            cut = logint * rng.randint(1, 2) if rng.random() < 0.75 else rng.randint(1, 7)
+            segs = [cut, rng.randint(1, 4)]
+            if rng.random() < 0.3:
+                segs.insert(rng.randint(0, 2), 0)
+            yield {"segs": segs, "logint": logint, "seed": rng.randrange(1, 2**31),
+                   "T": rng.choice([1.0, 10.0, 10.0, 300.0, 3000.0]), "driver": rng.choice(["can", "can", "gc"])}
+
+    def observe(self, case, segs):
+        import numpy as np
+        import quansino.mc  # noqa: F401
+        from ase import Atoms
+        from ase.build import bulk
+        from ase.calculators.calculator import Calculator, all_changes
+        from quansino.io.logger import Logger
+        from quansino.io.trajectory import TrajectoryObserver
+        from quansino.mc.canonical import Canonical
+        from quansino.mc.gcmc import GrandCanonical
+        from quansino.moves.displacement import DisplacementMove
+        from quansino.moves.exchange import ExchangeMove
+        from quansino.operations.displacement import Ball
+
+        class LazyStress(Calculator):
+            implemented_properties = ["energy", "forces", "stress"]  # noqa: RUF012
+
+            def calculate(self, atoms=None, properties=None, system_changes=all_changes):
+                super().calculate(atoms, properties, system_changes)
+                d = self.atoms.get_positions() - 1.7
+                self.results = {"energy": 0.05 * float((d * d).sum()), "forces": -0.1 * d}
+                if properties and "stress" in properties:
+                    self.results["stress"] = np.array([float((d[:, i] * d[:, j]).sum()) for i, j in
+                                                       ((0, 0), (1, 1), (2, 2), (1, 2), (0, 2), (0, 1))]) * 1e-3
+
+        atoms = bulk("Cu", cubic=True)
+        atoms.rattle(0.05, seed=1)
+        atoms.calc = LazyStress()
+        log, traj = io.StringIO(), io.StringIO()
+        logger = Logger(log, interval=case["logint"])
+        kw = dict(seed=case["seed"], max_cycles=1, logfile=logger, trajectory=TrajectoryObserver(atoms, traj, interval=1))
+        with warnings.catch_warnings():
+            warnings.simplefilter("ignore")
+            if case["driver"] == "can":
+                sim = Canonical(atoms, temperature=case["T"],
+                                default_displacement_move=DisplacementMove(np.arange(len(atoms)), Ball(0.5)), **kw)
+            else:
+                sim = GrandCanonical(atoms, Atoms("Cu"), temperature=case["T"], chemical_potential=0.0,
+                                     number_of_exchange_particles=len(atoms),
+                                     default_exchange_move=ExchangeMove(np.arange(len(atoms))),
+                                     default_displacement_move=DisplacementMove(np.arange(len(atoms)), Ball(0.5)), **kw)
+            logger.add_stress_fields(atoms)
+            for n in segs:
+                sim.run(n)
+        frames = [ln for ln in traj.getvalue().splitlines() if "Lattice" in ln]
+        return {"log": log.getvalue(), "traj": traj.getvalue(), "stress_in_frame": ["stress=" in ln for ln in frames]}
+
+    def real(self, case):
+        a = self.observe(case, case["segs"])
+        b = self.observe(case, [sum(case["segs"])])
+        return {"log_equal": a["log"] == b["log"], "traj_equal": a["traj"] == b["traj"],
+                "split": a["stress_in_frame"], "unsplit": b["stress_in_frame"]}
+
+    def oracle(self, case, obs):
+        if "exception" in obs:
+            return [("lazy-split:exception:" + obs["exception"], obs.get("message", "") + obs.get("trace", "")[-400:])]
+        out = []
+        if not obs["log_equal"]:
+            out.append(("lazy-split:log-differs", f"segments {case['segs']}"))
+        if not obs["traj_equal"]:
+            out.append(("lazy-split:trajectory-differs",
+                        f"segments {case['segs']}: frames carrying the lazily computed property: split {obs['split']} vs one run {obs['unsplit']}"))
+        return out
+
+    def classify(self, case, obs):
+        return f"{case['driver']}:log={case['logint']}"
+
+
 def suites(tier):
-    return [RunSplit(), NoLoggerSplit(), fbd.SplitView()]
+    return [RunSplit(), NoLoggerSplit(), fbd.SplitView(), LazyPropertySplit()]
